@@ -5,7 +5,6 @@ encodings the service supports and returns the HTTP request, plus what the libra
 texts produced here (the decoder contracts of the Lean model: decode(encode x) = x).
 """
 import json, re, urllib.parse
-import gen
 
 # ---------------------------------------------------------------------------------- the documented API (specification)
 # op -> (System method, [(param, kind, required)], argument order of the System call)
@@ -61,6 +60,87 @@ def spec_calls(op, args):
     return calls
 
 
+# ---------------------------------------------------------------------------------- JSON data (self-contained: integers only)
+
+KEYS = ["a", "b", "c", "d", "e"]
+STRS = ["x", "y", "z", "homer", "bart", "S_x", "F_1", "B_true", "", "a", "b", "1", "0", "x y", "é\"q"]
+VARS = ["?x", "?y", "?z", "?w"]
+
+
+def scalar(rng, kinds="snbz"):
+    k = rng.choice(kinds)
+    if k == "s":
+        return rng.choice(STRS)
+    if k == "n":
+        return rng.choice([0, 1, 2, 3, -1, 10, 42, 1000000, -7])
+    if k == "b":
+        return rng.choice([True, False])
+    return None
+
+
+def distinct_scalars(rng, n, kinds="snbz"):
+    """Scalars of one kind (the pattern index refuses to sort arrays of mixed kinds: a System matter, not ours)."""
+    kinds = rng.choice([k for k in kinds if k != "z"] or ["s"])
+    out, tries = [], 0
+    while len(out) < n and tries < 50:
+        tries += 1
+        s = scalar(rng, kinds)
+        if not any(type(s) == type(o) and s == o for o in out):
+            out.append(s)
+    return out
+
+
+def data(rng, depth=2, width=3):
+    """A JSON map: nested maps, arrays of distinct scalars of one kind, arrays of one map."""
+    def val(d):
+        r = rng.random()
+        if d <= 0 or r < 0.45:
+            return scalar(rng)
+        if r < 0.70:
+            return obj(d - 1)
+        if r < 0.90:
+            return distinct_scalars(rng, rng.randint(0, width))
+        return [obj(d - 1)]
+    def obj(d):
+        n = rng.randint(0 if d < depth else 1, width)
+        ks = rng.sample(KEYS, min(n, len(KEYS)))
+        return {k: val(d) for k in ks}
+    return obj(depth)
+
+
+def pattern_from(rng, d, var_prob=0.4, drop_prob=0.3, mutate_prob=0.05):
+    """A pattern derived from a datum: keys/elements dropped, leaves abstracted into variables, rarely a changed constant."""
+    def go(x, top=False):
+        if not top and rng.random() < var_prob:
+            return rng.choice(VARS)
+        if isinstance(x, dict):
+            out = {}
+            for k, v in x.items():
+                if rng.random() < drop_prob:
+                    continue
+                out[k] = go(v)
+            if rng.random() < mutate_prob:
+                out[rng.choice(KEYS)] = scalar(rng)
+            return out
+        if isinstance(x, list):
+            out, havevar = [], False
+            for e in x:
+                if rng.random() < drop_prob:
+                    continue
+                if isinstance(e, (dict, list)):
+                    out.append(go(e, top=True))
+                elif not havevar and rng.random() < var_prob:
+                    out.append(rng.choice(VARS)); havevar = True
+                else:
+                    out.append(e)
+            rng.shuffle(out)
+            return out
+        if rng.random() < mutate_prob:
+            return scalar(rng)
+        return x
+    return go(d, top=isinstance(d, dict))
+
+
 # ---------------------------------------------------------------------------------- strings needing escaping
 
 SPECIALS = ["x y", "a&b", "k=v", "q?r", "50%", "1+1", "say \"hi\"", "it's", "é✓ü", "a/b", "back\\slash", "tab\there",
@@ -94,7 +174,7 @@ def spice(rng, x, p=0.35):
 
 
 def fact(rng):
-    d = gen.data(rng, depth=rng.randint(1, 2), width=rng.randint(1, 3), homogeneous=True)
+    d = data(rng, depth=rng.randint(1, 2), width=rng.randint(1, 3))
     d = spice(rng, d)
     if not d:
         d = {"a": special(rng).lstrip("?") or "s"}
@@ -126,7 +206,7 @@ def uniq_vars(p, counter=None):
 
 
 def pattern_for(rng, f, counter=None):
-    p = gen.pattern_from(rng, f, var_prob=0.4, drop_prob=0.3, allow_anon=False, mutate_prob=0.05, repeat_prob=0.0)
+    p = pattern_from(rng, f)
     if not p:
         k = rng.choice(list(f.keys()))
         p = {k: "?x"}
